@@ -27,6 +27,7 @@
 (* spelled through a type alias is invisible), StopAtReportedCall (the     *)
 (* arguments of a reported call are not visited), SkipMethodNamedLikeFunc  *)
 (* (a method named like a @testonly function is taken for @testonly),     *)
+(* OnePerPosition (one report per expression start),                       *)
 (* ExportedOnly (methods of unexported types do not cross packages),       *)
 (* GroupDocLeaks (the doc of a spec reaches the next spec of its group).   *)
 (***************************************************************************)
@@ -39,12 +40,16 @@ VARIABLES prog, fi, ci, ph, skip, reported, diags
 vars == <<prog, fi, ci, ph, skip, reported, diags>>
 
 Ctxs == {"plain", "tofunc", "pmeth", "tometh", "decl", "pmethTF"}   \* pmethTF: an ordinary method that is merely named TF, like the @testonly function
-Uses == {"callF", "callM", "callMvar", "callHM", "litTG", "callPF", "callPM", "shadow", "callFlit",
-         \* callHM: d.Default.HTM() - HTM is a @testonly method (iff ann.meth) of the unexported type hid;
-         \* litTG: a literal of d.TG, the undocumented spec that follows the annotated TT inside one `type ( ... )` group   \* callFlit: d.TF(d.TT{..}.X) - a @testonly literal inside a @testonly call
+\* callFlit: d.TF(d.TT{..}.X) - a @testonly literal inside a @testonly call
+\* callHM:   d.Default.HTM() - HTM is a @testonly method (iff ann.meth) of the unexported type hid
+\* litTG:    a literal of d.TG, the undocumented spec that follows the annotated TT inside one `type ( ... )` group
+\* chainFM:  d.MkS().TM() - a @testonly function and a @testonly method in one expression (same start position)
+\* chainLM:  d.TT{}.TTM() - a literal of the type TT and its @testonly method TTM in one expression; TTM exists only when ann.meth
+\*           (an un-annotated method on TT in a non-test file would itself be a use of TT)
+Uses == {"callF", "callM", "callMvar", "callHM", "litTG", "chainFM", "chainLM", "callPF", "callPM", "shadow", "callFlit",
          "litTT", "varTT", "varPtrTT", "fieldTT", "paramTT", "resultTT", "litTT2", "litOTT"}
 TypeUses == {"litTT", "varTT", "varPtrTT", "fieldTT", "paramTT", "resultTT", "litTT2", "litOTT"}
-IsTypeUse(u) == u \in TypeUses \/ u = "callFlit"
+IsTypeUse(u) == u \in TypeUses \/ u \in {"callFlit", "chainLM"}
 
 Anns == [type : BOOLEAN, func : BOOLEAN, meth : BOOLEAN]
 
@@ -66,9 +71,9 @@ InTestCtx(f, c) == f.test \/ c.ctx \in {"tofunc", "tometh"}
 
 \* candidate code of a use, before the once-per-file rule
 Cands(c, ann) ==
-  (IF c.use \in {"callF", "callFlit"} /\ ann.func THEN {"TONL02"} ELSE {})
-  \cup (IF c.use \in {"callM", "callMvar", "callHM"} /\ ann.meth THEN {"TONL03"} ELSE {})
-  \cup (IF (c.use \in TypeUses \/ c.use = "callFlit") /\ (ann.type \/ c.use = "litOTT") THEN {"TONL01"} ELSE {})   \* o.TT is always annotated
+  (IF c.use \in {"callF", "callFlit", "chainFM"} /\ ann.func THEN {"TONL02"} ELSE {})
+  \cup (IF c.use \in {"callM", "callMvar", "callHM", "chainFM", "chainLM"} /\ ann.meth THEN {"TONL03"} ELSE {})
+  \cup (IF (c.use \in TypeUses \/ c.use \in {"callFlit", "chainLM"}) /\ (ann.type \/ c.use = "litOTT") THEN {"TONL01"} ELSE {})   \* o.TT is always annotated
 
 (***************************************************************************)
 (* L1                                                                      *)
@@ -88,13 +93,13 @@ L1(p) == {<<k[1], k[2], code>> : k \in Keys(p), code \in {"TONL01", "TONL02", "T
 (***************************************************************************)
 (* Program spaces                                                          *)
 (***************************************************************************)
-SeqUses == {"litTT", "varTT", "litTT2", "litOTT", "paramTT", "callF", "callMvar", "callFlit", "litTG"}
+SeqUses == {"litTT", "varTT", "litTT2", "litOTT", "paramTT", "callF", "callMvar", "callFlit", "litTG", "chainLM"}
 SeqConts(pkg) == {c \in {Cont(x, u) : x \in {"plain", "tofunc"}, u \in SeqUses} : Valid(c, pkg)}
 
 InitProg ==
   \/ /\ Mode = "single"
      /\ \E ann \in Anns, pkg \in {"d", "u"}, t \in BOOLEAN, x \in Ctxs, u \in Uses :
-          /\ Valid(Cont(x, u), pkg)
+          /\ Valid(Cont(x, u), pkg) /\ (u = "chainLM" => ann.meth)
           /\ prog = [ann |-> ann, pkg |-> pkg, files |-> <<[test |-> t, conts |-> <<Cont(x, u)>>]>>]
   \/ /\ Mode = "spell"     \* C13: every type use under every spelling of the type
      /\ \E ann \in {a \in Anns : a.type}, pkg \in {"d", "u"}, x \in Ctxs, u \in TypeUses \ {"litTT2", "litOTT"}, sp \in Spells :
@@ -105,9 +110,10 @@ InitProg ==
           /\ prog = [ann |-> ann, pkg |-> pkg, files |-> <<[test |-> FALSE, conts |-> <<ContS(x, u, sp)>>]>>]
   \/ /\ Mode = "seq2"
      /\ \E pkg \in {"d", "u"}, ann \in {a \in Anns : a.type} : \E c1 \in SeqConts(pkg), c2 \in SeqConts(pkg) :
-          \/ prog = [ann |-> ann, pkg |-> pkg, files |-> <<[test |-> FALSE, conts |-> <<c1, c2>>]>>]
-          \/ prog = [ann |-> ann, pkg |-> pkg, files |-> <<[test |-> FALSE, conts |-> <<c1>>], [test |-> FALSE, conts |-> <<c2>>]>>]
-          \/ prog = [ann |-> ann, pkg |-> pkg, files |-> <<[test |-> TRUE, conts |-> <<c1>>], [test |-> FALSE, conts |-> <<c2>>]>>]
+          /\ ("chainLM" \in {c1.use, c2.use} => ann.meth)
+          /\ \/ prog = [ann |-> ann, pkg |-> pkg, files |-> <<[test |-> FALSE, conts |-> <<c1, c2>>]>>]
+             \/ prog = [ann |-> ann, pkg |-> pkg, files |-> <<[test |-> FALSE, conts |-> <<c1>>], [test |-> FALSE, conts |-> <<c2>>]>>]
+             \/ prog = [ann |-> ann, pkg |-> pkg, files |-> <<[test |-> TRUE, conts |-> <<c1>>], [test |-> FALSE, conts |-> <<c2>>]>>]
   \/ /\ Mode = "seq3"
      /\ \E pkg \in {"d", "u"} : \E c1 \in SeqConts(pkg), c2 \in SeqConts(pkg), c3 \in SeqConts(pkg) :
           \/ prog = [ann |-> [type |-> TRUE, func |-> TRUE, meth |-> TRUE], pkg |-> pkg,
@@ -146,7 +152,10 @@ VisitCodes(c) ==
             ELSE IF "ExportedOnly" \in Deviations /\ c.use = "callHM" /\ prog.pkg # "d" THEN {}
             ELSE IF "GroupDocLeaks" \in Deviations /\ c.use = "litTG" /\ prog.ann.type THEN {"TONL01"}
             ELSE Cands(c, prog.ann)
-  IN IF "StopAtReportedCall" \in Deviations /\ "TONL02" \in cs THEN {"TONL02"} ELSE cs     \* the arguments of a reported call are not visited
+      \* OnePerPosition: of several reports anchored at the same expression start only the first survives
+      \* (the outermost call is visited first: TONL03 wins over TONL02 / TONL01)
+      one == IF "OnePerPosition" \in Deviations /\ c.use \in {"chainFM", "chainLM"} /\ "TONL03" \in cs THEN {"TONL03"} ELSE cs
+  IN IF "StopAtReportedCall" \in Deviations /\ "TONL02" \in cs /\ c.use \notin {"chainFM", "chainLM"} THEN {"TONL02"} ELSE one     \* the arguments of a reported call are not visited
 
 Visit ==
   /\ ph = "visit"
